@@ -23,5 +23,16 @@ CHECKS["C14"] = {
             "atomicity, cloudpickle/gzip round trip, os.path.exists never raises.",
     "technique": T,
 }
+CHECKS["C18"] = {
+    "level": "proof",
+    "text": "Kernel-checked theorems, generic over every wrapped learner model, every picker and every op list: the wrapped "
+            "learner's state equals the child's run on picked values, asks return the same points, extra_data holds the last "
+            "full result of exactly the told points and survives _get_data/_set_data. Tie: lock-step DataSaver(SequenceLearner); "
+            "search: twin runs for all wrapped real learner types incl. save/load, pickle, copy_from.",
+    "design_ref": "DESIGN.md section 6 C18",
+    "note": "Trusted: Lean kernel, standard axioms, hand model DataSaver.lean tied by differential testing; cloudpickle round trip. "
+            "Batched tells through the wrapper are outside the property's quantifier (see DESIGN.md).",
+    "technique": T,
+}
 _PENDING = "machinery for this property is not built yet in this commit (work in progress; see DESIGN.md section 9)"
 NOT_APPLICABLE = {f"C{i:02d}": _PENDING for i in range(1, 21) if f"C{i:02d}" not in CHECKS}
